@@ -22,6 +22,7 @@ RULE = (
     "distinct (solid, parameters, orientation, offset)"
 )
 ASSUMPTIONS = [
+    "a solid is the one described when it was constructed: the caller may re-use the array it passed a position in (value semantics of the constructors' position arguments, as on the pinned tree where they are copied)",
     "reference quadrature is accurate to 1e-12 relative (self-checked against exact rational multiples of pi for sphere, cap, "
     "frustum and lens on every case that has one)",
     "a closed-form value may differ from the true volume by rel 1e-9 + 1e-12*r_max^3: float64 evaluation of a few dozen "
@@ -417,29 +418,88 @@ QUERIES = [
 ]
 
 
-def _build_query(q):
+CONTAINERS = ("fresh array", "one buffer reused for every position", "tuple", "list", "read-only array", "fortran/strided view")
+
+
+class _Positions:
+    """Hands a position to a constructor in a given container.  'one buffer reused': the caller keeps ONE float64 array, writes
+    the next position into it and passes it again - as a loop over nodes does; a solid is the one described when it was built."""
+
+    def __init__(self, how):
+        self.how = how
+        self.buf = np.zeros(3)
+        self.big = np.zeros((3, 4))
+
+    def __call__(self, c):
+        c = [float(v) for v in c]
+        if self.how == CONTAINERS[1]:
+            self.buf[:] = c
+            return self.buf
+        if self.how == CONTAINERS[2]:
+            return tuple(c)
+        if self.how == CONTAINERS[3]:
+            return list(c)
+        if self.how == CONTAINERS[4]:
+            a = np.array(c)
+            a.setflags(write=False)
+            return a
+        if self.how == CONTAINERS[5]:
+            self.big[:, 2] = c
+            return self.big[:, 2]
+        return np.array(c)
+
+    def scramble(self):
+        self.buf[:] = (977.0, -3.5, 12.25)
+        self.big[:] = -41.0
+
+
+def _build_query(q, how=CONTAINERS[0]):
     """(label, object with get_volume(), true volume, scale, needs_rng)"""
     from swcgeom.utils import VolFrustumCone, VolSphere
 
-    if q[0] == "sphere":
-        _, r, ci = q
-        return f"sphere r={r}", VolSphere(np.array(OFFSETS[ci]), r), G.vol_sphere(r), r**3
-    if q[0] == "frustum":
-        _, r1, r2, h, oi, ci = q
+    P = _Positions(how)
+    try:
+        if q[0] == "sphere":
+            _, r, ci = q
+            return f"sphere r={r}", VolSphere(P(OFFSETS[ci]), r), G.vol_sphere(r), r**3
+        if q[0] == "frustum":
+            _, r1, r2, h, oi, ci = q
+            c = OFFSETS[ci]
+            if how in (CONTAINERS[1], CONTAINERS[5]):  # both ends through the one buffer is not a call a user can write: second end fresh
+                return f"frustum {r1},{r2},{h}", VolFrustumCone(P(c), r1, _pt(c, ORIENT_T[oi], h), r2), G.vol_frustum(r1, r2, h), max(r1, r2) ** 2 * h
+            return f"frustum {r1},{r2},{h}", VolFrustumCone(P(c), r1, P(_pt(c, ORIENT_T[oi], h)), r2), G.vol_frustum(r1, r2, h), max(r1, r2) ** 2 * h
+        if q[0] == "ss":
+            _, op, r1, r2, d, oi, ci = q
+            c = OFFSETS[ci]
+            a = VolSphere(P(c), r1)
+            b = VolSphere(P(_pt(c, ORIENT_T[oi], d)), r2)
+            return f"spheres {r1},{r2},d={d} {op}", getattr(a, op)(b), G.vol_two_spheres(r1, r2, d, "min" if op == "intersect" else "max"), max(r1, r2) ** 3
+        _, op, r1, r2, h, end, oi, ci = q
         c = OFFSETS[ci]
-        return f"frustum {r1},{r2},{h}", VolFrustumCone(np.array(c), r1, _pt(c, ORIENT_T[oi], h), r2), G.vol_frustum(r1, r2, h), max(r1, r2) ** 2 * h
-    if q[0] == "ss":
-        _, op, r1, r2, d, oi, ci = q
-        c = OFFSETS[ci]
-        a, b = VolSphere(np.array(c), r1), VolSphere(_pt(c, ORIENT_T[oi], d), r2)
-        return f"spheres {r1},{r2},d={d} {op}", getattr(a, op)(b), G.vol_two_spheres(r1, r2, d, "min" if op == "intersect" else "max"), max(r1, r2) ** 3
-    _, op, r1, r2, h, end, oi, ci = q
-    c = OFFSETS[ci]
-    c1, c2 = np.array(c), _pt(c, ORIENT_T[oi], h)
-    r_near, r_far = (r1, r2) if end == 0 else (r2, r1)
-    sp = VolSphere(c1 if end == 0 else c2, r_near)
-    return (f"sphere on end {end} of frustum {r1},{r2},{h} {op}", getattr(sp, op)(VolFrustumCone(c1, r1, c2, r2)),
-            G.vol_sphere_frustum(r_near, r_far, h, "min" if op == "intersect" else "max"), max(r1, r2) ** 2 * max(h, r_near))
+        c1, c2 = np.array(c), _pt(c, ORIENT_T[oi], h)
+        r_near, r_far = (r1, r2) if end == 0 else (r2, r1)
+        sp = VolSphere(P(c1 if end == 0 else c2), r_near)
+        fr = VolFrustumCone(P(c1), r1, np.array(c2), r2) if how in (CONTAINERS[1], CONTAINERS[5]) else VolFrustumCone(P(c1), r1, P(c2), r2)
+        return (f"sphere on end {end} of frustum {r1},{r2},{h} {op}", getattr(sp, op)(fr),
+                G.vol_sphere_frustum(r_near, r_far, h, "min" if op == "intersect" else "max"), max(r1, r2) ** 2 * max(h, r_near))
+    finally:
+        P.scramble()  # the caller goes on using its buffer for something else
+
+
+def check_containers(case, R):
+    """The same solids described through every container a caller may hold a position in."""
+    qi, how = case[1], case[2]
+    R.state("containers", qi, how)
+    ok, b = R.impl("construct", _build_query, QUERIES[qi], how)
+    if not ok:
+        return
+    label, obj, want, scale = b
+    for rnd, ans in ((1, FIXED[:4]), (2, [FIXED[1], FIXED[2], FIXED[0]])):
+        with _FastMC(), _Rng(ans, dg("c13c", case)):
+            ok, v = R.impl("get_volume", obj.get_volume)
+        if ok:
+            _cmp(R, v, want, scale, "volume:containers", lambda: f"{label}, positions handed over as: {how} (round {rnd})", f"volume:containers:{QUERIES[qi][0]}:{how}")
+    R.outcome(qi, how)
 
 
 def check_history(case, R):
@@ -634,6 +694,9 @@ def spaces(tier, seed):
                          "triples": len(triples), "ends": 2, "rng_menu": "real generator (seeded) + parallel-to-axis + 4 fixed answers"
                          + ("" if quick else " + 2 more fixed + almost-parallel + three parallel answers in a row"),
                          "reference_cases_reached": paths, **common}),
+        Space.of("position-containers", lambda: (["containers", qi, how] for qi in range(len(QUERIES)) for how in CONTAINERS), check_containers,
+                 bounds={"objects": len(QUERIES), "containers": list(CONTAINERS),
+                         "note": "the caller's buffer is overwritten after each constructor returns: a solid is the one described when it was built"}),
         Space.of("query-histories", gen_hist, check_history,
                  bounds={"objects": len(QUERIES), "sequence_length": "2" if quick else "2 and 3", "rounds": 2,
                          "note": "all objects built first, queried in order, then all queried again under other rand answers"}),
